@@ -675,17 +675,26 @@ func examineImage(img *crashImage, nut *cNode, c *cCluster, sch interface{ Strin
 	conf.clock = clk
 	var dd *DrandDaemon
 	var startErr error
-	func() {
-		defer func() {
-			if r := recover(); r != nil {
-				startErr = fmt.Errorf("panic: %v", r)
+	for attempt := 0; attempt < 4; attempt++ {
+		func() {
+			defer func() {
+				if r := recover(); r != nil {
+					startErr = fmt.Errorf("panic: %v", r)
+				}
+			}()
+			dd, startErr = NewDrandDaemon(context.Background(), conf)
+			if startErr == nil {
+				startErr = dd.LoadBeaconsFromDisk(context.Background(), "", false, "")
 			}
 		}()
-		dd, startErr = NewDrandDaemon(context.Background(), conf)
-		if startErr == nil {
-			startErr = dd.LoadBeaconsFromDisk(context.Background(), "", false, "")
+		// the free port found a moment ago can be taken by another process by now: that says nothing about the image
+		if startErr == nil || !strings.Contains(startErr.Error(), "address already in use") {
+			break
 		}
-	}()
+		conf = NewConfig(lg, WithConfigFolder(work), WithPrivateListenAddress(test.FreeBind("127.0.0.1")), WithControlPort(test.FreePort()), WithDBStorageEngine(chain.BoltDB))
+		conf.clock = clk
+		time.Sleep(50 * time.Millisecond)
+	}
 	if dd != nil {
 		defer func() {
 			done := make(chan struct{})
